@@ -116,6 +116,8 @@ pub struct Ctx {
     pub max_samples: usize,
     pub max_violations: usize,
     sample_every: u64,
+    /// set by a monitor to end the current family early (e.g. an exhaustive enumeration is complete)
+    pub stop_family: bool,
 }
 
 impl Ctx {
@@ -157,6 +159,7 @@ impl Ctx {
             max_samples: 6,
             max_violations: 25,
             sample_every: 1,
+            stop_family: false,
         }
     }
     pub fn thorough(&self) -> bool {
@@ -220,6 +223,10 @@ impl Ctx {
             }
             self.journal_case(case, 0);
             k += 1;
+            if self.stop_family {
+                self.stop_family = false;
+                break;
+            }
         }
         *self.stats.counters.entry(format!("family:{family}")).or_insert(0) += k;
     }
